@@ -148,7 +148,7 @@ def build(pid, tier="quick"):
                 for m in mods:
                     fh.write(f"import {m}\n")
                 fh.write("import GBS.Model.Parse\n")
-                fh.write("open GBS GBS.P GBS.Py GBS.Num\n")
+                fh.write("import GBS.Model.Heap\nopen GBS GBS.P GBS.Py GBS.Num GBS.Heap\n")
                 for t in st.theorems:
                     fh.write(f"#print axioms {t}\n")
             rc2, out2 = _run(["lake", "env", "lean", audit], cwd=LEAN)
